@@ -62,7 +62,11 @@ def spec_call(ex, ev: Eval, node: ast.Call, fname: str):
         return V(BOOL, q(bvs, body, patterns=pats) if pats else q(bvs, body))
     if fname == "implies":
         ante = ev.boolean(a[0])
-        if z3.is_false(z3.simplify(ante)):
+        probe = ante
+        nr = getattr(ex, "_named_result", None)
+        if nr is not None:
+            probe = z3.substitute(ante, (nr[0], nr[1]))
+        if z3.is_false(z3.simplify(probe)):
             return V(BOOL, z3.BoolVal(True))  # lazily: the consequent may mention names that are unbound here
         return V(BOOL, z3.Implies(ante, ev.boolean(a[1])))
     if fname == "iff":
@@ -440,11 +444,26 @@ def builtin_call(ex, ev: Eval, node, fname):
             src = fresh(TMap(INT, INT), "heap_src")
             j = z3.Int("j!heap")
             ev.st.pc.append(list_len(new) == list_len(h) - 1)
+            # the popped element has a minimal first component (ties are broken by later components, which callers
+            # make unique), and every other element is still in the heap
+            e0 = z3.Select(list_arr(h), i.z)
+            k_ = z3.Int("k!heap")
+            if isinstance(h.t.elem, TTuple) and h.t.elem.items[0] in (INT, REAL):
+                acc0 = sort_of(h.t.elem).accessor(0, 0)
+                ev.st.pc.append(z3.ForAll([k_], z3.Implies(z3.And(0 <= k_, k_ < list_len(h)), acc0(e0) <= acc0(z3.Select(list_arr(h), k_))),
+                                          patterns=[z3.Select(list_arr(h), k_)]))
+            inv_ = fresh(TMap(INT, INT), "heap_inv")
+            ev.st.pc.append(z3.ForAll([k_], z3.Implies(z3.And(0 <= k_, k_ < list_len(h), k_ != i.z),
+                                                       z3.And(0 <= z3.Select(inv_.z, k_), z3.Select(inv_.z, k_) < list_len(new),
+                                                              z3.Select(list_arr(new), z3.Select(inv_.z, k_)) == z3.Select(list_arr(h), k_))),
+                                      patterns=[z3.Select(inv_.z, k_)]))
             ev.st.pc.append(z3.ForAll([j], z3.Implies(z3.And(0 <= j, j < list_len(new)),
                                                       z3.And(0 <= z3.Select(src.z, j), z3.Select(src.z, j) < list_len(h),
                                                              z3.Select(list_arr(new), j) == z3.Select(list_arr(h), z3.Select(src.z, j)))),
                                       patterns=[z3.Select(list_arr(new), j)]))
             ex.assign(ev.st, a[0], new, ev)
+            ev.st.vars["_heap_inv"] = inv_  # ghost handles: new position of each surviving entry, position that was popped
+            ev.st.vars["_heap_idx"] = i
             return V(h.t.elem, z3.Select(list_arr(h), i.z))
         raise Unsupported("heap operation on a modelled list")
     if fname == "callable" and len(a) == 1:
